@@ -28,7 +28,8 @@ from common import hexb
 
 RULE = ("cases = (a) module lists (the names ssh.connect packages plus extra and nested names) whose sources are "
         "generated files: empty, 1 byte, > 64 KiB, > 1 MiB (thorough), high-entropy UTF-8, all-zero, arbitrary "
-        "UTF-8 incl. astral code points, CRLF / lone CR / mixed line ends, non-UTF-8 bytes as explicit data; "
+        "UTF-8 incl. astral code points, CRLF / lone CR / mixed line ends, PEP 263 latin-1 sources with a coding line, "
+        "UTF-8 BOM, non-UTF-8 bytes as explicit data (file lookup = the real spec with origin and a real SourceFileLoader); "
         "packed by the real empackage with one shared compressor and assembled by the real assembler.py under "
         "scripted raw-read segmentations (1 byte, 2, 7, 4096, everything, random) and reader buffer sizes, with "
         "trailing bytes after the terminator; (b) the real ssh.connect with random option values (bool, int incl. "
@@ -118,9 +119,14 @@ class Scratch:
 
 
 class FakeImportlib:
-    """stands in for the name `importlib` inside sshuttle.ssh: module name -> file path"""
+    """stands in for the name `importlib` inside sshuttle.ssh: module name -> the spec the real import
+    system builds for that file (`origin` = the path, `loader` = a real SourceFileLoader, whose
+    get_source() decodes per PEP 263 / BOM and translates newlines), so whichever way
+    get_module_source reads the source is exercised faithfully."""
 
     def __init__(self, paths):
+        import importlib.util as _iu
+        self._iu = _iu
         self.paths = paths
         self.asked = []
         self.util = types.SimpleNamespace(find_spec=self.find_spec)
@@ -128,7 +134,7 @@ class FakeImportlib:
     def find_spec(self, name):
         self.asked.append(name)
         p = self.paths.get(name)
-        return None if p is None else types.SimpleNamespace(origin=p)
+        return None if p is None else self._iu.spec_from_file_location(name, p)
 
 
 class RecZ:
@@ -328,12 +334,18 @@ def gen_source(rng, kind, thorough):
         return rng.choice([b'\r', b'a\rb', b'x = 1\r', b'\r\r\n\r', b'# \xe2\x82\xac\r\n\r'])
     if kind == 'mixed':
         return b''.join(rng.choice([b'l%d' % i, b'\r\n', b'\n', b'\r', b'\xc3\xa9']) for i in range(rng.randrange(2, 30)))
+    if kind == 'latin1-coding':    # PEP 263: stored in latin-1, declared in the first or second line
+        head = rng.choice([b'# -*- coding: latin-1 -*-\n', b'#!/usr/bin/python\n# vim: set fileencoding=iso-8859-1 :\n',
+                           b'# coding=latin-1\r\n'])
+        return head + b'NAME = "caf\xe9 \xfc\xdf"\n' + bytes(rng.choice([0xe9, 0xa0, 0xff, 0x41, 0x0a]) for _ in range(rng.randrange(0, 40)))
+    if kind == 'bom':              # UTF-8 signature
+        return b'\xef\xbb\xbf' + rng.choice([b'', b'x = 1\n', b'# \xe2\x82\xac\r\ny = "\xc3\xa9"\r\n', b'# coding: utf-8\nz = 2\n'])
     if kind == 'binary':       # only ever passed as explicit data
         return bytes([0xff, 0xfe, 0x80]) + rng.randbytes(rng.randrange(0, 300))
     raise KeyError(kind)
 
 
-FILE_KINDS = ['empty', 'one', 'small-py', 'gt64k', 'entropy', 'zeros', 'utf8', 'crlf', 'cr', 'mixed']
+FILE_KINDS = ['empty', 'one', 'small-py', 'gt64k', 'entropy', 'zeros', 'utf8', 'crlf', 'cr', 'mixed', 'latin1-coding', 'bom']
 
 
 def rand_option_value(rng):
@@ -501,7 +513,7 @@ def run_e2e(case, scratch, rng_sizes=None):
             content = ssh.get_module_source('sshuttle.assembler')
             for name, data, via in case['modules']:
                 frames.append(ssh.empackage(z, name, data if via == 'data' else None))
-        except UnicodeDecodeError:
+        except (UnicodeDecodeError, ImportError, SyntaxError):
             obs['pack_error'] = 'decodeError'
         except UnicodeEncodeError:
             obs['pack_error'] = 'nameNotAscii'
@@ -675,7 +687,7 @@ def src_case(ctx, scratch, data, log):
         try:
             got = ssh.get_module_source('pk.m')
             out = 'ok ' + hexb(got)
-        except UnicodeDecodeError:
+        except (UnicodeDecodeError, ImportError, SyntaxError):
             got = None
             out = 'decodeError'
     finally:
@@ -696,7 +708,8 @@ def locale_case(ctx, scratch):
     data = b'# caf\xc3\xa9\nx = 1\n'
     p = scratch.put(data)
     code = ("import sys, types\nsys.path.insert(0, %r)\nimport sshuttle.ssh as ssh\n"
-            "ssh.importlib = types.SimpleNamespace(util=types.SimpleNamespace(find_spec=lambda n: types.SimpleNamespace(origin=%r)))\n"
+            "import importlib.util as iu\n"
+            "ssh.importlib = types.SimpleNamespace(util=types.SimpleNamespace(find_spec=lambda n: iu.spec_from_file_location(n, %r)))\n"
             "try:\n    sys.stdout.write(ssh.get_module_source('m').hex())\nexcept UnicodeDecodeError:\n    sys.stdout.write('UnicodeDecodeError')\n"
             % (common.REPO, p))
     env = dict(os.environ, LC_ALL='C', LANG='C', PYTHONUTF8='0', PYTHONCOERCECLOCALE='0', PYTHONDONTWRITEBYTECODE='1')
@@ -868,7 +881,7 @@ def run_connect(case, scratch, dry=False, via_main=False, server_chunks=None, gr
                         obs['outcome'] = 'other:' + msg[:80]
             else:
                 ssh.connect(None, None, None, None, False, None, dict(case['options']))
-        except UnicodeDecodeError:
+        except (UnicodeDecodeError, ImportError, SyntaxError):
             obs['error'] = 'decodeError'
         except UnicodeEncodeError:
             obs['error'] = 'encodeError'
@@ -1327,6 +1340,14 @@ def subprocess_case(ctx, sub_seed, scratch, names, keys):
         if n == 'sshuttle':
             pad = rng.choice([b'', b'# \xe2\x82\xac\r\n', b'x = """a\r\nb"""\n'])
             files[n] = SUB_PKG_INIT + pad
+            enc = rng.choice(['plain', 'latin1-coding', 'bom', 'crlf'])
+            ctx.hist('subprocess-init:' + enc)
+            if enc == 'latin1-coding':
+                files[n] = b'# -*- coding: latin-1 -*-\n' + SUB_PKG_INIT + b'NAME = "caf\xe9"\n'
+            elif enc == 'bom':
+                files[n] = b'\xef\xbb\xbf' + SUB_PKG_INIT + b'NAME = "caf\xc3\xa9"\n'
+            elif enc == 'crlf':
+                files[n] = SUB_PKG_INIT.replace(b'\n', b'\r\n')
         elif n == 'sshuttle.server':
             files[n] = file_bytes(os.path.join(real_dir, 'server.py')) + SUB_SERVER_TRAILER
         else:
@@ -1486,12 +1507,14 @@ def run(ctx):
         # get_module_source alone, boundary contents first
         lg = Log('src')
         fixed = [b'', b'\n', b'x', b'a\r\nb', b'a\rb', b'\r', b'\r\n', b'\r\r\n', b'a\n\rb\r', b'caf\xc3\xa9\r\n',
-                 b'\xef\xbb\xbfx=1\n', bytes(3), b'\xf0\x9f\x98\x80\r']
+                 b'\xef\xbb\xbfx=1\n', bytes(3), b'\xf0\x9f\x98\x80\r',
+                 b'# -*- coding: latin-1 -*-\nNAME = "caf\xe9"\n', b'#!/bin/sh\n# coding: iso-8859-15\r\ns = "\xa4"\r\n',
+                 b'\xef\xbb\xbf', b'\xef\xbb\xbf# coding: utf-8\r\nx = "\xc3\xa9"\r', b'# coding: utf-8\nx = "\xe2\x82\xac"\n']
         for d in fixed:
             src_case(ctx, scratch, d, lg)
             ctx.count()
         for _ in range(ctx.scale(40, 400)):
-            src_case(ctx, scratch, gen_source(rng, rng.choice(['utf8', 'mixed', 'cr', 'crlf', 'one', 'zeros']), ctx.thorough)[:3000], lg)
+            src_case(ctx, scratch, gen_source(rng, rng.choice(['utf8', 'mixed', 'cr', 'crlf', 'one', 'zeros', 'latin1-coding', 'bom']), ctx.thorough)[:3000], lg)
             ctx.count()
         logs.append(lg)
         locale_case(ctx, scratch)
